@@ -12,9 +12,10 @@ import (
 )
 
 type in struct {
-	K     int      `json:"k"`
-	Pairs [][2]int `json:"pairs"`
-	FP    [][]int  `json:"fp"`
+	K      int      `json:"k"`
+	Pairs  [][2]int `json:"pairs"`
+	Pairs2 [][2]int `json:"pairs2"` // optional second relation: F of the first pass is the base of the second (reads, then includes)
+	FP     [][]int  `json:"fp"`
 }
 
 func main() {
@@ -31,10 +32,18 @@ func main() {
 		f := map[int][]int{}
 		for i := 0; i < c.K; i++ {
 			X[i] = i
-			fp[i] = append([]int{}, c.FP[i]...)
+			// built the way yaccgo builds its sets: one append at a time, so that the slices have the same spare capacity
+			for _, v := range c.FP[i] {
+				fp[i] = append(fp[i], v)
+			}
 			f[i] = []int{}
 		}
 		lalr.Digraph(X, lalr.VerifRelations(c.Pairs), fp, &f)
+		if c.Pairs2 != nil {
+			f2 := map[int][]int{}
+			lalr.Digraph(X, lalr.VerifRelations(c.Pairs2), f, &f2)
+			f = f2
+		}
 		out := make([][]int, c.K)
 		for i := 0; i < c.K; i++ {
 			out[i] = append([]int{}, f[i]...)
